@@ -107,15 +107,22 @@ def build_lib(kind):
     stamp = os.path.join(d, '.ok')
     with Lock('lib-' + kind):
         if os.path.exists(stamp):
+            os.utime(stamp)  # last use
             return d
-        # keep the cache small: keep the two most recently used other trees of this kind (a concurrent check may be
-        # running on one of them), drop older ones
+        # keep the cache small, but never pull a library out from under a concurrent check (other checks, mutation runs
+        # on other trees): drop a tree of this kind only if it is not among the 6 most recently used AND unused for 90 min
         base = os.path.join(WORK, 'lib')
         if os.path.isdir(base):
+            def last_use(x):
+                try:
+                    return os.path.getmtime(os.path.join(x, '.ok'))
+                except OSError:
+                    return os.path.getmtime(x)
             others = [os.path.join(base, e) for e in os.listdir(base) if e.endswith('-' + kind) and e != tree + '-' + kind]
-            others.sort(key=lambda d: os.path.getmtime(d), reverse=True)
-            for d_old in others[2:]:
-                shutil.rmtree(d_old, ignore_errors=True)
+            others.sort(key=last_use, reverse=True)
+            for d_old in others[6:]:
+                if time.time() - last_use(d_old) > 90 * 60:
+                    shutil.rmtree(d_old, ignore_errors=True)
         shutil.rmtree(d, ignore_errors=True)
         os.makedirs(d)
         args, _ = LIB_KINDS[kind]
